@@ -5,14 +5,14 @@
    order-0 ENCODER of noodles, and an INDEPENDENT decoder for orders 0 and 1 written from the
    CRAM codecs specification).
 
-   PARTIAL: proved in full for the three integer codings; for rANS 4x8 order 0 the entropy-coded
-   payload (states, renormalisation bytes, 4-way interleave) is proved to decode to the input for
-   every byte string under the side conditions the proof forces; the serialisation of the
-   frequency table is NOT proved (it is wrong in the real code for three input classes, see the
-   [_refuted] lemmas) and order 1, rANS Nx16, the arithmetic coder, fqzcomp, the name tokenizer
-   and gzip/bzip2/lzma have no theorem (implementation-side oracle only). *)
+   The models describe the REPAIRED code (fix commits 01-16 of the C08 series).
+   PARTIAL: proved in full for the three integer codings and for rANS 4x8 order 0 (every byte
+   string, whole stream, against the independent decoder); order 1, rANS Nx16, the arithmetic
+   coder, fqzcomp, the name tokenizer and gzip/bzip2/lzma have no theorem (implementation-side
+   oracle only). *)
 From Coq Require Import List NArith ZArith.
-From NV Require Import Cram.Bytes Cram.Itf8 Cram.Ltf8 Cram.Vlq Cram.IntProofs Cram.Rans4x8 Cram.Rans4x8Proofs.
+From NV Require Import Cram.Bytes Cram.Itf8 Cram.Ltf8 Cram.Vlq Cram.IntProofs Cram.Rans4x8 Cram.Rans4x8Proofs
+  Cram.Rans4x8Table.
 Import ListNotations.
 Open Scope N_scope.
 
@@ -100,10 +100,13 @@ Theorem c08_rans_symbol_lookup : forall F x s0 c0 r,
 Proof. exact spec_symbol_correct. Qed.
 Print Assumptions c08_rans_symbol_lookup.
 
-(* every table the encoder builds sums to at most 4095 < 4096 *)
-Theorem c08_rans_normalize_sum : forall raw F, normalize_frequencies raw = Some F -> sumN F <= 4095.
-Proof. exact normalize_sum_le. Qed.
-Print Assumptions c08_rans_normalize_sum.
+(* the table normalize_frequencies builds (u64 product, correction spread over the table): 256
+   entries, sum at most 4096, and every symbol that occurs keeps a frequency of at least 1 *)
+Theorem c08_rans_normalize_table : forall raw F,
+  length raw = 256%nat -> normalize_frequencies raw = Some F ->
+  length F = 256%nat /\ sumN F <= 4096 /\ (forall i, 0 < nth i raw 0 -> 0 < nth i F 0).
+Proof. exact normalize_table. Qed.
+Print Assumptions c08_rans_normalize_table.
 
 (* 4-way interleaved symbol loop, any table: decoded by the independent decoder to the input *)
 Theorem c08_rans4x8_o0_core_roundtrip : forall src F,
@@ -115,58 +118,32 @@ Theorem c08_rans4x8_o0_core_roundtrip : forall src F,
 Proof. exact rans4x8_o0_core_roundtrip. Qed.
 Print Assumptions c08_rans4x8_o0_core_roundtrip.
 
-(* ... and with the encoder's own table, for EVERY byte string, under [no_overflow]:
-   normalize_frequencies does not panic (F8, F8b) and leaves every occurring symbol a non-zero
-   frequency *)
-Theorem c08_rans4x8_o0_payload_roundtrip_partial : forall src F,
-  Forall (fun x => x < 256) src -> no_overflow src F ->
-  exists st stack,
-    enc_symbols F (cumulative F) src = Some (st, stack) /\
-    forall tail, spec_decode0_loop (length src) F st (stack ++ tail) = Some (src, tail).
-Proof. exact rans4x8_o0_payload_roundtrip. Qed.
-Print Assumptions c08_rans4x8_o0_payload_roundtrip_partial.
+(* freq_table_roundtrip: the run-length coded table written by write_frequencies is read back by
+   the specification's ReadFrequencies0, for every table in which some symbol occurs *)
+Theorem c08_freq_table_roundtrip : forall F rest,
+  length F = 256%nat -> Forall (fun g => g < 4294967296) F -> (exists i, nth i F 0 <> 0) ->
+  spec_read_frequencies0 (write_frequencies F ++ rest) = Some (F, rest).
+Proof. exact freq_table_roundtrip. Qed.
+Print Assumptions c08_freq_table_roundtrip.
 
-(* the full statement for rANS 4x8 order 0, NOT proved: it additionally needs the frequency-table
-   serialisation round trip (freq_table_roundtrip), which is false in the real code for the three
-   classes below and is only tested (L2/L3) elsewhere *)
-Definition known_class_o0 (src : list N) : Prop :=
-  src = [] \/
-  (~ In 0 src /\ In 1 src) \/                                   (* first table symbol is 1 *)
-  (exists s, 1 <= s /\ s < 255 /\ forall y, s - 1 <= y -> y <= 255 -> In y src).  (* run reaching 255 *)
+(* THE order-0 statement: for EVERY byte string (shorter than 2^32, the limit of the header) the
+   encoder terminates without panicking and the independent specification decoder maps the
+   stream it emits -- header, frequency table, states, payload -- back to the input.  No side
+   condition is left: the former defect classes (empty input, first table symbol 1, a run of
+   symbols reaching 255, counts above 2^20, the normalisation correction) are covered. *)
+Theorem c08_rans4x8_o0_roundtrip : forall src,
+  Forall (fun x => x < 256) src -> N.of_nat (length src) < 4294967296 ->
+  exists bytes, encode_o0 src = EncOk bytes /\ spec_decode bytes = Some src.
+Proof. exact rans4x8_o0_roundtrip. Qed.
+Print Assumptions c08_rans4x8_o0_roundtrip.
 
-Definition c08_rans4x8_o0_roundtrip_full_statement : Prop :=
-  forall src F, Forall (fun x => x < 256) src -> no_overflow src F -> ~ known_class_o0 src ->
-    exists bytes, encode_o0 src = EncOk bytes /\ spec_decode bytes = Some src.
-
-(* ---------------- the known defect classes are real in the faithful model ---------------- *)
-
-Theorem c08_normalize_u32_overflow_refuted :
-  normalize_frequencies (upd zeros256 65 1048833) = None /\
-  normalize_frequencies (upd zeros256 65 1048832) <> None.
-Proof. exact normalize_u32_overflow_refuted. Qed.
-Print Assumptions c08_normalize_u32_overflow_refuted.
-
-Theorem c08_normalize_u16_underflow_refuted :
-  normalize_frequencies (repeat 4128 127 ++ [3871] ++ repeat 1 128) = None.
-Proof. exact normalize_u16_underflow_refuted. Qed.
-Print Assumptions c08_normalize_u16_underflow_refuted.
-
-Theorem c08_rans4x8_o0_first_symbol_1_refuted :
-  exists src, (exists b, encode_o0 src = EncOk b) /\
-              spec_decode (bytes_of_result (encode_o0 src)) <> Some src.
-Proof. exact rans4x8_o0_first_symbol_1_refuted. Qed.
-Print Assumptions c08_rans4x8_o0_first_symbol_1_refuted.
-
-Theorem c08_rans4x8_o0_run_to_255_refuted :
-  exists src, (exists b, encode_o0 src = EncOk b) /\
-              spec_decode (bytes_of_result (encode_o0 src)) <> Some src.
-Proof. exact rans4x8_o0_run_to_255_refuted. Qed.
-Print Assumptions c08_rans4x8_o0_run_to_255_refuted.
-
-Theorem c08_rans4x8_o0_empty_refuted :
-  (exists b, encode_o0 [] = EncOk b) /\ spec_decode (bytes_of_result (encode_o0 [])) <> Some [].
-Proof. exact rans4x8_o0_empty_refuted. Qed.
-Print Assumptions c08_rans4x8_o0_empty_refuted.
+(* the full C08 statement, NOT proved beyond the parts above: order 1 of rANS 4x8 (independent
+   decoder modelled and compared, encoder not modelled), rANS Nx16, the adaptive arithmetic coder,
+   fqzcomp, the name tokenizer and gzip/bzip2/lzma have no Gallina model *)
+Definition c08_full_statement_informal : Prop :=
+  forall src, Forall (fun x => x < 256) src -> N.of_nat (length src) < 4294967296 ->
+    (exists bytes, encode_o0 src = EncOk bytes /\ spec_decode bytes = Some src)
+    (* /\ the same for every other codec of the property statement *).
 
 (* ---------------- non-vacuity ---------------- *)
 
@@ -178,12 +155,19 @@ Proof. vm_compute. repeat split. Qed.
 Example c08_uint7_example : write_uint7 4294967295 = [143; 255; 255; 255; 127].
 Proof. vm_compute. reflexivity. Qed.
 
-(* [no_overflow] and [table_ok] are satisfiable, and the whole pipeline runs end to end *)
-Example c08_no_overflow_example :
-  let src := [0; 2; 0; 2; 7; 7; 7; 9; 0; 200; 255; 0; 2] in
-  exists F, no_overflow src F /\ spec_decode (bytes_of_result (encode_o0 src)) = Some src.
+(* the former defect inputs now run end to end in the model (and in the repaired code, L2) *)
+Example c08_former_defect_inputs :
+  spec_decode (bytes_of_result (encode_o0 [1])) = Some [1] /\
+  spec_decode (bytes_of_result (encode_o0 [253; 254; 255])) = Some [253; 254; 255] /\
+  spec_decode (bytes_of_result (encode_o0 [])) = Some [] /\
+  (exists F, normalize_frequencies (repeat 4128 127 ++ [3871] ++ repeat 1 128) = Some F /\ sumN F = 4095) /\
+  (exists F, normalize_frequencies (upd zeros256 65 1048833) = Some F /\ nth 65 F 0 = 4095).
 Proof.
-  eexists. split; [split; [vm_compute; reflexivity|]|vm_compute; reflexivity].
-  intros x Hx. cbn [In] in Hx.
-  repeat (destruct Hx as [Hx|Hx]; [subst x; vm_compute; reflexivity|]). destruct Hx.
+  split; [vm_compute; reflexivity|]. split; [vm_compute; reflexivity|].
+  split; [vm_compute; reflexivity|]. split; eexists; split; vm_compute; reflexivity.
 Qed.
+
+Example c08_end_to_end_example :
+  let src := [0; 2; 0; 2; 7; 7; 7; 9; 0; 200; 255; 0; 2] in
+  spec_decode (bytes_of_result (encode_o0 src)) = Some src.
+Proof. vm_compute. reflexivity. Qed.
